@@ -2,10 +2,13 @@
 import json, struct
 from framework import Violation, Inconclusive
 from driver import Driver, DriverCrash, DriverHang, shape_params, encode_text
-import fonts, fontsynth, gdlgen
+import fonts, fontsynth, gdlgen, corpustext
 
-SHIPPED_QUICK = ['Padauk.ttf', 'Scheherazadegr.ttf', 'general.ttf', 'Awami_test.ttf']
-SHIPPED_ALL = SHIPPED_QUICK + ['charis_r_gr.ttf', 'Annapurnarc2.ttf', 'MagyarLinLibertineG.ttf', 'PigLatinBenchmark_v3.ttf', 'AwamiNastaliq-Regular.ttf', 'Awami_compressed_test.ttf']
+# small.ttf / charis_fast.ttf / Charis5_eursub.ttf are the shipped fonts whose passes carry pass bits (glyphs that skip whole passes: seed S7-C15
+# needed a text none of whose glyphs enters any pass)
+SHIPPED_QUICK = ['Padauk.ttf', 'Scheherazadegr.ttf', 'general.ttf', 'Awami_test.ttf', 'small.ttf', 'charis_fast.ttf']
+SHIPPED_ALL = SHIPPED_QUICK + ['charis_r_gr.ttf', 'Annapurnarc2.ttf', 'MagyarLinLibertineG.ttf', 'PigLatinBenchmark_v3.ttf', 'AwamiNastaliq-Regular.ttf', 'Awami_compressed_test.ttf',
+                               'Charis5_eursub.ttf', 'grtest1gr.ttf']
 
 
 def font_bytes(case):
@@ -40,6 +43,21 @@ def case_strategy(names, sup, max_len=24, well_formed_synth=True):
             pr = cc['probes'][0]
             return dict(kind='spec', spec=cc['spec'], text=pr['text'], dir=draw(st.integers(0, 7)), enc=draw(st.sampled_from([1, 2, 4])), feats=pr['feats'])
         f = draw(st.sampled_from(names))
+        mode = draw(st.integers(0, 9))
+        ls = corpustext.lines(f) if mode < 2 else None
+        if ls:
+            # 2 in 10 (fonts with a paired text file): a window of a real line, mostly in the script's own direction
+            where, line = ls[draw(st.integers(0, len(ls) - 1))]
+            a = draw(st.integers(0, max(0, len(line) - 4)))
+            txt = line[a:a + draw(st.integers(2, 2 * max_len))]
+            d = corpustext.natural_dir(f) if draw(st.integers(0, 2)) else draw(st.integers(0, 7))
+            return dict(kind='shipped', font=f, text=txt, dir=d, enc=draw(st.sampled_from([1, 2, 4])), feats=[], line=where)
+        if mode == 2 and sup[f]:
+            # 1 in 10: a homogeneous text, every character from one window of 10 neighbours in cmap order (all punctuation, all digits, all
+            # marks ...): texts whose glyphs all skip the same passes
+            b = draw(st.integers(0, len(sup[f]) - 1))
+            txt = [sup[f][(b + draw(st.integers(0, 9))) % len(sup[f])] for _ in range(draw(st.integers(2, 8)))]
+            return dict(kind='shipped', font=f, text=txt, dir=draw(st.integers(0, 7)), enc=draw(st.sampled_from([1, 2, 4])), feats=[])
         txt = [c for c in draw(fonts.text_strategy(sup[f], 0, max_len)) if c]
         return dict(kind='shipped', font=f, text=txt, dir=draw(st.integers(0, 7)), enc=draw(st.sampled_from([1, 2, 4])), feats=[])
     return gen()
